@@ -57,8 +57,11 @@ def ensure_driver():
                               env=dict(os.environ, CARGO_NET_OFFLINE="true"))
 
 
-def extract(config="lib", force=False):
+def extract(config="lib", force=False, repo=None):
     """config: 'lib' (default cfg), 'libtest' (lib with cfg(test)), 'bins'.  Returns path of the facts file."""
+    global REPO
+    if repo is not None:
+        REPO = repo
     ensure_driver()
     os.makedirs(CACHE, exist_ok=True)
     key = input_hash(config)
@@ -119,14 +122,14 @@ def extract(config="lib", force=False):
             json.dump(merged, fh)
         os.replace(out + ".tmp", out)
     shutil.rmtree(tmp, ignore_errors=True)
-    # keep the cache small: drop fact files of other source states
-    for f in os.listdir(CACHE):
-        if f.startswith("facts-%s-" % config) and f.endswith(".json") and os.path.join(CACHE, f) != out:
-            try:
-                if time.time() - os.path.getmtime(os.path.join(CACHE, f)) > 3600:
-                    os.remove(os.path.join(CACHE, f))
-            except OSError:
-                pass
+    # keep the cache small: only the few most recent fact files per configuration survive
+    olds = sorted((f for f in os.listdir(CACHE) if f.startswith("facts-%s-" % config) and f.endswith(".json")
+                   and os.path.join(CACHE, f) != out), key=lambda f: os.path.getmtime(os.path.join(CACHE, f)), reverse=True)
+    for f in olds[4:]:
+        try:
+            os.remove(os.path.join(CACHE, f))
+        except OSError:
+            pass
     return out, key, time.time() - t0, False
 
 
